@@ -416,7 +416,7 @@ def frameRes (h : Header) (p : Bytes) (unmask au : Bool) : Res (Option Frame) :=
   else .ok (some ⟨h, p⟩)
 
 /-- what one call of `read_frame` may return, relative to the logical stream `S` -/
-def FrameOut (maxSize : Nat) (unmask au : Bool) (c : Codec) (t : Transport) (S : Bytes)
+def RdFrameOut (maxSize : Nat) (unmask au : Bool) (c : Codec) (t : Transport) (S : Bytes)
     (res : Codec × Transport × Res (Option Frame)) : Prop :=
   TSame t res.2.1 ∧ CSame c res.1 ∧
   res.1.inBuf.length + rdBytes res.2.1.rd ≤ c.inBuf.length + rdBytes t.rd ∧
@@ -445,7 +445,7 @@ theorem finishFrame_spec (c : Codec) (h : Header) (p : Bytes) (unmask au : Bool)
 theorem readFrame_spec (maxFrame : Option Nat) (unmask au : Bool) (c : Codec) (t : Transport)
     (B : Bytes) (hben : ∀ e ∈ t.rd, e.benign = true) (hdef : t.rdDef = .err .wouldBlock)
     (hr : Rep c B) :
-    FrameOut (maxFrame.getD usizeMax) unmask au c t (B ++ dataOf t.rd)
+    RdFrameOut (maxFrame.getD usizeMax) unmask au c t (B ++ dataOf t.rd)
       (c.readFrame t maxFrame unmask au) := by
   have hl := readLoop_spec (maxFrame.getD usizeMax) (t.rd.length + 1) c t B hben hdef hr
     (Nat.le_refl _)
@@ -464,13 +464,13 @@ theorem readFrame_spec (maxFrame : Option Nat) (unmask au : Bool) (c : Codec) (t
       dsimp only at hout ⊢
       obtain ⟨h, rest, hs, hh, hrest⟩ := hout
       rw [finishFrame_spec c' h p unmask au hh]
-      unfold FrameOut
+      unfold RdFrameOut
       dsimp only
       exact ⟨hts, ⟨hcs.outBuf, hcs.maxOut, hcs.writeLen⟩, hlen,
         Or.inl ⟨h, p, rest, hs, rfl, rfl, hrest⟩⟩
   | err e =>
     dsimp only at hout ⊢
-    unfold FrameOut
+    unfold RdFrameOut
     dsimp only
     refine ⟨hts, hcs, hlen, ?_⟩
     rcases hout with ⟨h1, h2⟩ | h
